@@ -16,6 +16,7 @@ def run(ctx):
     D.ord11_files_before_catalogue_entry(ctx)
     D.lit3_wal_file_names(ctx)
     D.ord15_store_not_conditional_on_presence(ctx)
+    D.erv4_no_error_discarded(ctx)
     return ctx.finish(
         'Static analysis of compiler MIR: a crash between any two file effects leaves either the '
         'old catalogue with all its files and log segments or the new one, because (a) blobs are '
